@@ -17,6 +17,7 @@ import z3
 
 MAXW = 96          # widest bit-vector the engine will build (lomond's widest value: 64-bit length)
 QUERY_TIMEOUT_MS = int(os.environ.get('SX_QUERY_TIMEOUT_MS', '90000'))
+INCR_TIMEOUT_MS = int(os.environ.get('SX_INCR_TIMEOUT_MS', '4000'))   # first (incremental) attempt of arithmetic queries
 XVAL_STRIDE = 0
 XVAL_SEED = 0
 CONTINUE_SIGS = set()   # violations with these signatures (known findings) do not stop the exploration
@@ -74,6 +75,7 @@ class Ctx(object):
         self.trace = []           # [taken, other_feasible_or_None]
         self.queries = 0
         self.prove_queries = 0
+        self.fallbacks = 0        # queries decided by a fresh solver after the incremental one returned unknown
         self.t_solver = 0.0
         self.nfresh = 0
         self.nchoose = 0
@@ -81,6 +83,7 @@ class Ctx(object):
         self.notes = {}           # per-path scratch for harness
         self.soft = []
         self.last_model = None    # a model of the current path condition (saves feasibility queries)
+        self._alt_model = None    # model from a fallback solver (the incremental one returned unknown)
 
     # ---- per path -------------------------------------------------------------------------
     def begin_path(self, prefix):
@@ -100,12 +103,55 @@ class Ctx(object):
     # ---- solver ---------------------------------------------------------------------------
     def _check(self, *extra):
         self.queries += 1
+        self._alt_model = None
         t = time.time()
-        r = self.solver.check(*extra)
+        if LOGIC is None and INCR_TIMEOUT_MS < QUERY_TIMEOUT_MS:
+            # arithmetic harnesses (reals / integers, possibly non-linear): z3's incremental core can stall on a query that
+            # a fresh solver decides in milliseconds -> short first attempt, then the same formula on fresh solvers
+            self.solver.set('timeout', INCR_TIMEOUT_MS)
+            try:
+                r = self.solver.check(*extra)
+            finally:
+                self.solver.set('timeout', QUERY_TIMEOUT_MS)
+        else:
+            r = self.solver.check(*extra)
+        why = None
+        if r == z3.unknown:
+            why = self.solver.reason_unknown()
+            r = self._check_fresh(extra)
         self.t_solver += time.time() - t
         if r == z3.unknown:
-            raise EngineLimit('solver returned unknown: %s' % self.solver.reason_unknown())
+            raise EngineLimit('solver returned unknown: %s' % why)
         return r
+
+    def _check_fresh(self, extra):
+        """The incremental solver gave up: decide the SAME formula (all assertions of the path + extra) non-incrementally --
+        a fresh z3 solver (default strategy, then other seeds), then cvc5 (accepted for unsat only).  Still unknown ->
+        inconclusive as before.  A sat answer leaves its model in _alt_model (read through _model())."""
+        fs = list(self.solver.assertions()) + list(extra)
+        per = max(1000, QUERY_TIMEOUT_MS // 3)
+        for seed in (0, 7):
+            s = z3.Solver()
+            s.set('timeout', per)
+            if seed:
+                s.set('random_seed', seed)
+            s.add(fs)
+            r = s.check()
+            if r != z3.unknown:
+                self.fallbacks += 1
+                if r == z3.sat:
+                    self._alt_model = s.model()
+                return r
+        try:
+            r = _cvc5_unsat(fs, per)
+        except Exception:
+            r = z3.unknown
+        if r == z3.unsat:
+            self.fallbacks += 1
+        return r
+
+    def _model(self):
+        return self._alt_model if self._alt_model is not None else self.solver.model()
 
     # ---- harness inputs (symbolic in exploration, concrete in replay) --------------------
     def byte(self, name):
@@ -156,7 +202,7 @@ class Ctx(object):
         self.solver.add(cond)
         if self._check() != z3.sat:
             raise PathAbort('assumption infeasible')
-        self.last_model = self.solver.model()
+        self.last_model = self._model()
 
     def branch(self, cond):
         """cond: z3 Bool -> python bool; forks."""
@@ -188,14 +234,14 @@ class Ctx(object):
             can_f = True
             can_t = self._check(cond) == z3.sat
             if can_t:
-                self.last_model = self.solver.model()
+                self.last_model = self._model()
         else:
             can_t = self._check(cond) == z3.sat
             if can_t:
-                self.last_model = self.solver.model()
+                self.last_model = self._model()
             can_f = self._check(z3.Not(cond)) == z3.sat
             if not can_t and can_f:
-                self.last_model = self.solver.model()
+                self.last_model = self._model()
         if can_t:
             self.trace.append((True, can_f))
             if can_f:
@@ -286,7 +332,7 @@ class Ctx(object):
             return dict(self.concrete)
         if self._check() != z3.sat:
             raise PathAbort('no model')
-        m = self.solver.model()
+        m = self._model()
         out = {}
         for name, v in self.inputs:
             val = m.eval(v, model_completion=True)
@@ -314,6 +360,28 @@ class Ctx(object):
             else:
                 lo = mid + 1
         return lo
+
+
+def _cvc5_unsat(fs, timeout_ms):
+    """unsat / unknown from cvc5 (python wheel, if the overlay venv has it) on the SMT-LIB2 rendering of fs"""
+    import cvc5
+    s = z3.Solver()
+    s.add(fs)
+    txt = '(set-logic ALL)\n' + s.to_smt2()
+    slv = cvc5.Solver()
+    slv.setOption('tlimit-per', str(int(timeout_ms)))
+    ip = cvc5.InputParser(slv)
+    ip.setStringInput(cvc5.InputLanguage.SMT_LIB_2_6, txt, 'q')
+    sm = ip.getSymbolManager()
+    res = None
+    while True:
+        cmd = ip.nextCommand()
+        if cmd.isNull():
+            break
+        out = cmd.invoke(slv, sm)
+        if 'check-sat' in cmd.getCommandName():
+            res = str(out).strip()
+    return z3.unsat if res == 'unsat' else z3.unknown
 
 
 def ctx():
@@ -740,6 +808,7 @@ class Result(object):
         self.decisions = 0
         self.queries = 0
         self.prove_queries = 0
+        self.fallbacks = 0
         self.t_solver = 0.0
         self.violations = []      # (what, model, extra)
         self.limits = []          # inconclusive reasons
@@ -754,6 +823,7 @@ class Result(object):
         self.decisions += o.decisions
         self.queries += o.queries
         self.prove_queries += o.prove_queries
+        self.fallbacks += getattr(o, 'fallbacks', 0)
         self.t_solver += o.t_solver
         for v in o.violations:
             if not any(x[3] == v[3] for x in self.violations):
@@ -838,6 +908,7 @@ def explore(run, stack=None, max_paths=10 ** 7, stop_on_violation=True, deadline
             break
     res.queries = c.queries
     res.prove_queries = c.prove_queries
+    res.fallbacks = c.fallbacks
     res.t_solver = c.t_solver
     res.wall = time.time() - t0
     if leftover:
